@@ -860,8 +860,8 @@ func TestCheck(t *testing.T) {
 		},
 	}
 	pbt.Add(s, &pbt.Spec[Case]{Name: "grid", Run: run, Static: enumerate})
-	pbt.Add(s, &pbt.Spec[Case]{Name: "random", Gen: genModel, Run: run, Quick: 8000, Thorough: 600000, Shards: 8})
-	pbt.Add(s, &pbt.Spec[Case]{Name: "realkv", Gen: genKV, Run: run, Quick: 16, Thorough: 600, Shards: 8})
+	pbt.Add(s, &pbt.Spec[Case]{Name: "random", Gen: genModel, Run: run, Quick: 8000, Thorough: 1500000, Shards: 8})
+	pbt.Add(s, &pbt.Spec[Case]{Name: "realkv", Gen: genKV, Run: run, Quick: 16, Thorough: 1200, Shards: 8})
 	s.Extra("static_grid_enumerated_completely", true)
 	s.Main(t)
 }
